@@ -1071,7 +1071,7 @@ class Shelxfile():
         if atoms:
             self.add_line(self.unit.position, f'ANIS{"_" if residue else ""}{residue} {atoms}')
         else:
-            self.add_line(self.unit.position, 'ANIS')
+            self.add_line(self.unit.position, f'ANIS{"_" if residue else ""}{residue}')
 
     @property
     def sum_formula_exact(self) -> str:
